@@ -119,6 +119,7 @@ def strings_in(obj, out):
 
 
 TAG = re.compile(r'\{([\w.]+)\|([^}]*)\}')
+TAGHEAD = re.compile(r'\{(g\d+|s\d+)\.[\w.]+\|')
 BANNER = 'MITx Grading Library Version'
 
 
@@ -881,9 +882,12 @@ class Run(object):
                     return bad('entry %d ok=%r but grade_decimal=%r' % (k, e['ok'], gd))
             # positional attribution via the unique tags of SimItemGrader messages
             if isinstance(inp, list) and k < len(inp) and isinstance(inp[k], str):
-                for name, text in TAG.findall(e['msg']):
-                    if text != inp[k]:
-                        return bad('entry %d carries the tag of input %r, not of input %r' % (k, text, inp[k]))
+                want_tag = inp[k].replace('\n', '<br/>\n') + '}'
+                for mt in TAGHEAD.finditer(e['msg']):
+                    rest = e['msg'][mt.end():]
+                    if not rest.startswith(want_tag):
+                        return bad('entry %d carries the tag %r..., not the tag of its own input %r'
+                                   % (k, rest[:30], inp[k]))
         if not g.config.get('debug'):
             for t in texts:
                 if BANNER in t or 'Student Response' in t or 'Expect value inferred' in t \
